@@ -346,6 +346,9 @@ struct SplineCopyView final : ISpline
     VectorXd partialT(bool) const override { return s.getEnergyPartialGradByTimes(); }
     Grads propagate(const MatrixXd &, const VectorXd &, bool) override { no(); }
     Grads propagateIntoStale(const MatrixXd &, const VectorXd &, int) override { no(); }
+    MatrixXd partialCStale(bool) const override { no(); }
+    VectorXd partialTStale(bool) const override { no(); }
+    Grads energyGradStale(bool) const override { no(); }
     VectorXd trajEval(double t, int k) const override
     {
         auto v = s.getTrajectory().evaluate(t, k);
